@@ -13,6 +13,8 @@ pub mod c10;
 pub mod c11;
 pub mod c12;
 pub mod c13;
+pub mod c14;
+pub mod c15;
 pub mod c16;
 pub mod stacks;
 pub mod c17;
@@ -108,6 +110,8 @@ pub fn dispatch(id: &str, tier: Tier, seed: u64, replay: Option<&str>) -> i32 {
         "C11" => run(&c11::C11, tier, seed, replay),
         "C12" => run(&c12::C12, tier, seed, replay),
         "C13" => run_unprivileged(&c13::C13, tier, seed, replay),
+        "C14" => run(&c14::C14, tier, seed, replay),
+        "C15" => run(&c15::C15, tier, seed, replay),
         "C16" => run(&c16::C16, tier, seed, replay),
         "C17" => run(&c17::C17, tier, seed, replay),
         "C18" => run(&c18::C18, tier, seed, replay),
